@@ -313,6 +313,18 @@ def recheck_recent():
     del _RECENT[:]
 
 
+def open_decode(tpm_type, data, strict=True, cc=None, enc=None):
+    """The live decode generator itself (for lazy pipelines: printer(decoder(bytes)))."""
+    if isinstance(tpm_type, str):
+        tpm_type = type_by_name(tpm_type)
+    kwargs = dict(tpm_type=tpm_type, buffer=bytes(data), abort_on_error=strict)
+    if cc is not None:
+        kwargs["command_code"] = cc_obj(cc) if isinstance(cc, int) else cc
+    if enc is not None:
+        kwargs["parameter_encryption"] = enc
+    return Binary.marshal(**kwargs)
+
+
 def run(*args, **kwargs):
     t = _run(*args, **kwargs)
     try:
